@@ -71,9 +71,32 @@ def new_explorer():
 
     # --- loops that modify the queue state: the global invariant is the loop invariant
     for key in ((JOBS + ":workq._preenjobq", 0), (JOBS + ":workq._preenall", 0), (JOBS + ":workq.handletimeouts", 0),
-                (JOBS + ":workq.killjobs", 0), (QSERVE + ":QPlugin.rpc_qkill", 0), (QSERVE + ":QPlugin.shutdown", 0),
                 (JOBS + ":workq.dropdead", 0)):
         ex.loopspecs[key] = qm.state_loop_spec()
+
+    # shutdown: entries already visited have left the dead connection (ghost release on take)
+    def inv_shutdown(I, v, it):
+        S = st(I)
+        k = v["self"].fields["running_jobs"].conn
+        V, Rk = it["V"], z3.Select(S["R_has"], k)
+        return [("visited_entries_released", Forall(["id"], lambda i: z3.Implies(z3.Select(V, i), z3.Not(z3.Select(Rk, i)))))]
+    ex.loopspecs[(QSERVE + ":QPlugin.shutdown", 0)] = qm.state_loop_spec(inv_shutdown)
+
+    # killjobs / rpc_qkill: the ids already visited (first loop), resp. all listed ids
+    # (second loop, which runs after killjobs returned) denote finished jobs
+    def inv_killjobs(I, v, it):
+        S = st(I)
+        V = it["V"]
+        return [("visited_ids_are_finished", Forall(["id"], lambda i: z3.Implies(
+            z3.And(z3.Select(V, i), z3.Select(S["id_has"], i)), z3.Select(S["j_done"], z3.Select(S["id_val"], i)))))]
+    ex.loopspecs[(JOBS + ":workq.killjobs", 0)] = qm.state_loop_spec(inv_killjobs)
+
+    def inv_qkill(I, v, it):
+        S = st(I)
+        ids = v["jobids"].member
+        return [("listed_ids_are_finished", Forall(["id"], lambda i: z3.Implies(
+            z3.And(z3.Select(ids, i), z3.Select(S["id_has"], i)), z3.Select(S["j_done"], z3.Select(S["id_val"], i)))))]
+    ex.loopspecs[(QSERVE + ":QPlugin.rpc_qkill", 0)] = qm.state_loop_spec(inv_qkill)
     return ex
 
 
@@ -123,7 +146,7 @@ def seg_pushjob_new(chk):
         S, w = start(I, ex)
         j = I.fresh("job@job", Z)
         I.inputs[str(j)] = j
-        I.assume(qm.valid_ref(S, j))
+        I.assume(qm.valid_job(S, j))
         I.assume(z3.Select(S["j_serial"], j) == 0)
         I.assume(z3.Not(z3.Select(S["j_done"], j)))
         nowhere(I, S, j)
@@ -194,6 +217,11 @@ def seg_qpull(chk):
             # suspended puller: its waiter entry is still registered and was not re-targeted
             S1 = qm.State(I2, "s1_")
             I2.ghost["S"] = S1
+            # facts about the pre-yield state are of no use any more (dropping hypotheses is sound)
+            sc = I2.ghost.get("schemas")
+            if sc is not None:
+                sc.items = []
+            I2.assumed_foralls = {}
             qm.assume_inv(I2, S1)
             w.fields["count"] = SInt(S1["count"])
             I2.assume(z3.Select(S1["W"], a.z))
@@ -286,7 +314,11 @@ def seg_simple(chk, name, rel, qual, args_fn, plugin=False):
 
 
 def idlist(I):
-    return qm.AbsIter("jobids", qm.any_seq_iter(lambda I2, x: SInt(x)))
+    """the `jobids` argument: an arbitrary list of ids, abstracted to the set of its elements"""
+    member = I.fresh("jobids@id", A(Z, Bo))
+    lst = qm.AbsIter("jobids", qm.set_iter(lambda I2: member, lambda I2, x: SInt(x), "id"))
+    lst.member = member
+    return lst
 
 
 def replay_history(model, obligation):
